@@ -108,8 +108,14 @@ def run(ctx):
     try:
         with concurrent.futures.ThreadPoolExecutor(max_workers=vf.NCPU) as ex:
             futs = [ex.submit(run_case, exe, base, i, c) for i, c in enumerate(cs)]
-            for f in futs:
-                c, verdict, detail, got = f.result()
+            results = [f.result() for f in futs]
+        # a case that timed out under load is re-run alone before it is called a hang
+        for i, (c, verdict, detail, got) in enumerate(results):
+            if verdict == "hang":
+                ctx.add("children_rerun_alone")
+                results[i] = run_case(exe, base, 100000 + i, c)
+        if True:
+            for c, verdict, detail, got in results:
                 ctx.add("evaluations")
                 ctx.add("children")
                 ctx.distinct.add(str(sorted(c.items())) + verdict)
